@@ -319,6 +319,38 @@ def _witness(arg, me, merged, sm):
 
 # =============================================================================== D4
 def d4_bulk(prog, rep):
+    """bulk helpers return exactly the requested number / shape of draws, each a fresh self.sample().  Lengths come from the
+    counting-loop abstraction (cva/counts.py): iterator pipelines over 0..n, for loops and while-counter loops are all read"""
+    from ..counts import trip_count, loops_of, appends
+    from ..idx import strip_casts
+    eng = ElemEngine(prog)
+    SAMPLE = DS + 'Distribution::sample'
+
+    def pipeline_len(t):
+        """length of collect(map(range / iter))"""
+        if tag(t) == 'call' and short(t[1]) == 'collect':
+            t = t[2][0]
+            if tag(t) == 'call' and short(t[1]) == 'map':
+                it = t[2][0]
+                while tag(it) == 'call' and short(it[1]) in ('into_iter', 'iter'):
+                    it = it[2][0]
+                if tag(it) == 'range':
+                    return psub_(poly(it[2]), poly(it[1]))
+        return None
+
+    def filled_len(f, vec, per_item=None):
+        """number of appends to vec over the whole body: one unconditional append per iteration of one counting loop"""
+        for li in loops_of(f):
+            aps = appends(f, vec, li)
+            if not aps:
+                continue
+            if len(aps) != 1 or not aps[0][1]:
+                return None, aps
+            tc = trip_count(f, li)
+            return tc, aps
+        return None, []
+
+    # ---- Distribution1D::sample_n
     k = DS + 'Distribution1D::sample_n'
     f = prog.func(k)
     key = 'bulk:sample_n'
@@ -326,23 +358,32 @@ def d4_bulk(prog, rep):
         rep.viol('bulk', key, 'default sample_n disappeared')
     else:
         rep.touch(k)
-        me = ('arg', 1, f.names.get(1))
         n = ('arg', 2, f.names.get(2))
         rets = f.return_values()
-        ok = False
+        ret, _ = eng.result_of(k, {1: S})
+        def is_draw(e):
+            # the trait method has no body in the default implementation: the element abstraction reports it as an unknown callee
+            return isinstance(e, tuple) and ((e[0] == 'call' and e[1] == SAMPLE) or (e[0] == 'top' and e[1] == 'std callee ' + SAMPLE))
+        elems_ok = isinstance(ret, frozenset) and bool(ret) and all(is_draw(e) for e in ret)
+        if elems_ok:
+            ret = frozenset([('sym', 'draw')])
+        ln = None
         if len(rets) == 1:
-            t = rets[0]
-            if tag(t) == 'call' and short(t[1]) == 'collect':
-                t = t[2][0]
-                if tag(t) == 'call' and short(t[1]) == 'map':
-                    it, cl = t[2]
-                    while tag(it) == 'call' and short(it[1]) == 'into_iter':
-                        it = it[2][0]
-                    if it == ('range', ('const', 'usize', 0), n) and tag(cl) == 'agg' and cl[1] == 'closure':
-                        g = prog.func(cl[2])
-                        rv = g.return_values() if g else []
-                        ok = len(rv) == 1 and tag(rv[0]) == 'call' and rv[0][1] == DS + 'Distribution::sample'
-        (rep.ok if ok else rep.viol)('bulk', key, 'sample_n(n) = (0..n).map(|_| self.sample()).collect(): exactly n draws' if ok else 'sample_n is %s' % [show(r)[:100] for r in rets], site_of(f.body))
+            ln = pipeline_len(rets[0])
+            if ln is None:
+                v = rets[0]
+                while tag(v) == 'call' and v[1].endswith('Vector::new') or (tag(v) == 'call' and short(v[1]) in ('from', 'into')):
+                    v = v[2][0]
+                ln, _aps = filled_len(f, v)
+        if ln is not None and not peq(ln, poly(n)):
+            rep.viol('bulk', key, 'sample_n(n) returns %s draws, not n' % pshow_(ln), site_of(f.body))
+        elif isinstance(ret, frozenset) and not has_top(ret) and not elems_ok:
+            rep.viol('bulk', key, 'sample_n returns elements %s that are not fresh self.sample() draws' % show_expr(ret)[:120], site_of(f.body))
+        elif ln is not None and elems_ok:
+            rep.ok('bulk', key, 'sample_n(n): n elements, each a fresh self.sample()')
+        else:
+            rep.undecided('bulk', key, 'length or elements of the result not derived (%s)' % [show(r)[:60] for r in rets], site_of(f.body), proof=False)
+    # ---- sample_matrix
     k = DS + 'Distribution1D::sample_matrix'
     f = prog.func(k)
     key = 'bulk:sample_matrix'
@@ -351,13 +392,20 @@ def d4_bulk(prog, rep):
         me = ('arg', 1, f.names.get(1))
         r, c = ('arg', 2, f.names.get(2)), ('arg', 3, f.names.get(3))
         rets = f.return_values()
-        ok = False
         if len(rets) == 1 and tag(rets[0]) == 'call' and rets[0][1].endswith('Matrix::new'):
             data, a1, a2 = rets[0][2]
-            from ..idx import strip_casts
-            ok = tag(data) == 'call' and short(data[1]) == 'sample_n' and data[2][0] == me and peq(poly(data[2][1]), pmul(poly(r), poly(c))) and \
-                strip_casts(a1) == r and strip_casts(a2) == c
-        (rep.ok if ok else rep.viol)('bulk', key, 'sample_matrix(r, c) = Matrix::new(sample_n(r*c), r, c)' if ok else 'sample_matrix is %s' % [show(x)[:120] for x in rets], site_of(f.body))
+            shape_ok = strip_casts(a1) == r and strip_casts(a2) == c
+            if tag(data) == 'call' and short(data[1]) == 'sample_n' and data[2][0] == me:
+                cnt_ok = peq(poly(data[2][1]), pmul(poly(r), poly(c)))
+                if shape_ok and cnt_ok:
+                    rep.ok('bulk', key, 'sample_matrix(r, c) = Matrix::new(sample_n(r*c), r, c)')
+                else:
+                    rep.viol('bulk', key, 'sample_matrix(r, c) builds Matrix::new(sample_n(%s), %s, %s)' % (show(data[2][1])[:40], show(a1)[:20], show(a2)[:20]), site_of(f.body))
+            else:
+                rep.undecided('bulk', key, 'data of the matrix is %s' % show(data)[:60], site_of(f.body), proof=False)
+        else:
+            rep.undecided('bulk', key, 'sample_matrix is %s' % [show(x)[:80] for x in rets], site_of(f.body), proof=False)
+    # ---- DistributionND::sample_n
     k = DS + 'DistributionND::sample_n'
     f = prog.func(k)
     key = 'bulk:DistributionND::sample_n'
@@ -366,18 +414,31 @@ def d4_bulk(prog, rep):
         me = ('arg', 1, f.names.get(1))
         n = ('arg', 2, f.names.get(2))
         rets = f.return_values()
-        ok = False
-        why = ''
         if len(rets) == 1 and tag(rets[0]) == 'call' and rets[0][1].endswith('Matrix::new'):
             data, a1, a2 = rets[0][2]
-            from ..idx import strip_casts
-            dim = ('call', DS + 'DistributionND::get_dim', (me,), None)
-            exts = [c for c in f.calls() if c.path and short(c.path) == 'extend' and c.args[0] == data]
-            loops = [li for li in f.loop_info() if li['item'] is not None]
-            ok = strip_casts(a1) == n and _is_get_dim(strip_casts(a2), me) and len(exts) == 1 and len(loops) == 1 and loops[0]['iter'] == ('range', ('const', 'usize', 0), n) \
-                and exts[0].bb in loops[0]['blocks'] and tag(exts[0].args[1]) == 'call' and exts[0].args[1][1] == DS + 'Distribution::sample'
-        (rep.ok if ok else rep.viol)('bulk', key, 'n draws appended, Matrix::new(data, n, dim)' if ok else 'DistributionND::sample_n does not stack n draws as n x dim', site_of(f.body))
+            tc, aps = filled_len(f, data)
+            shape_ok = strip_casts(a1) == n and _is_get_dim(strip_casts(a2), me)
+            draw_ok = bool(aps) and tag(aps[0][0].args[1]) == 'call' and aps[0][0].args[1][1] == SAMPLE
+            if tc is not None and aps and (not peq(tc, poly(n)) or not shape_ok or not draw_ok):
+                rep.viol('bulk', key, 'DistributionND::sample_n appends %s per iteration over %s iterations into a matrix declared %s x %s (expected one draw per row, n x dim)' % (
+                    show(aps[0][0].args[1])[:40], pshow_(tc), show(a1)[:20], show(a2)[:30]), site_of(f.body))
+            elif tc is not None and aps:
+                rep.ok('bulk', key, 'n draws appended, Matrix::new(data, n, dim)')
+            else:
+                rep.undecided('bulk', key, 'fill loop of the data buffer not recognised', site_of(f.body), proof=False)
+        else:
+            rep.undecided('bulk', key, 'result is %s' % [show(x)[:60] for x in rets], site_of(f.body), proof=False)
     rep.floor('bulk', 3, 'sample_n, sample_matrix, DistributionND::sample_n')
+
+
+def psub_(a, b):
+    from ..poly import psub
+    return psub(a, b)
+
+
+def pshow_(p):
+    from ..poly import pshow
+    return pshow(p, show) or '0'
 
 
 def _is_get_dim(t, me):
@@ -454,6 +515,10 @@ def d6_loops(prog, rep):
             # iterator-driven loops terminate by their range
             if any(li['header'] == h and li['item'] is not None for li in f.loop_info()):
                 continue
+            # while-loops on a counter terminate by their bound as well
+            from ..counts import trip_count
+            if trip_count(f, {'header': h, 'blocks': blocks, 'item': None, 'iter': None}) is not None:
+                continue
             n += 1
             key = 'rng-loop:%s:bb%d' % (k, h) if False else 'rng-loop:%s:%d' % (k, sorted(loops).index(h))
             rep.touch(k)
@@ -512,26 +577,46 @@ def d7_integral(prog, rep):
         seen = set()
         inprog = set()
 
+        memo = {}
+
         def integral(fn, t, depth=0):
+            """True: provably integer valued; False: provably a non-integer-valued construction (continuous draw, division, transcendental,
+            real parameter); None: not decided"""
             kk = tag(t)
             if kk == 'const':
                 return isinstance(t[2], (int, float)) and float(t[2]) == int(t[2])
             if kk == 'cast' and t[1] == 'IntToFloat':
                 return True
+            if kk == 'cast':
+                return integral(fn, t[2], depth)
             if kk == 'bin' and t[4] == 'f64' and t[1] in ('Add', 'Sub', 'Mul'):
-                return integral(fn, t[2], depth) and integral(fn, t[3], depth)
+                a, b = integral(fn, t[2], depth), integral(fn, t[3], depth)
+                if a is True and b is True:
+                    return True
+                if a is False or b is False:
+                    return False
+                return None
+            if kk == 'bin' and t[4] == 'f64' and t[1] == 'Div':
+                return False
             if kk == 'un' and t[1] == 'Neg':
                 return integral(fn, t[2], depth)
+            if kk == 'field' and t[3] in ('f64', '&f64'):
+                return False             # a real-valued parameter
             if kk == 'call':
                 p = t[1]
-                if is_f64_method(p) and f64_method_name(p) in ('floor', 'ceil', 'round', 'trunc'):
-                    return True
-                if p in pdb.bodies and depth < 3 and p not in seen:
-                    seen.add(p)
-                    g = prog.func(p)
-                    rep.touch(p)
-                    return all(integral(g, r, depth + 1) for r in g.return_values())
-                return False
+                if is_f64_method(p):
+                    return True if f64_method_name(p) in ('floor', 'ceil', 'round', 'trunc') else False
+                if p.startswith('alea::f64') or p.startswith('alea::f32'):
+                    return False
+                if p in pdb.bodies and depth < 3:
+                    if p not in memo:
+                        memo[p] = None
+                        g = prog.func(p)
+                        rep.touch(p)
+                        rs = [integral(g, r, depth + 1) for r in g.return_values()]
+                        memo[p] = True if rs and all(r is True for r in rs) else (False if any(r is False for r in rs) else None)
+                    return memo[p]
+                return None
             if kk == 'local':
                 key2 = (fn.body.key, t)
                 if key2 in inprog:
@@ -539,15 +624,22 @@ def d7_integral(prog, rep):
                 inprog.add(key2)
                 try:
                     vals = [s.value for s in fn.stores() if s.target == t]
-                    return bool(vals) and all(integral(fn, v, depth) for v in vals)
+                    rs = [integral(fn, v, depth) for v in vals]
+                    return True if rs and all(r is True for r in rs) else (False if any(r is False for r in rs) else None)
                 finally:
                     inprog.discard(key2)
-            return False
+            return None
+        und = []
         for r in f.return_values():
-            if not integral(f, r):
+            iv_ = integral(f, r)
+            if iv_ is False:
                 bad.append(r)
+            elif iv_ is None:
+                und.append(r)
         if bad:
             rep.viol('integral', key, 'the discrete sampler can return %s, which is not built from integer casts / floor / integer literals: draws need not be integers' % show(bad[0])[:120], site_of(f.body))
+        elif und:
+            rep.undecided('integral', key, 'integrality of %s not derived' % show(und[0])[:80], site_of(f.body), proof=False)
         else:
             rep.ok('integral', key, 'every returned value is integer-valued by construction')
     rep.floor('integral', 4, 'Bernoulli, Binomial, Poisson, DiscreteUniform')
